@@ -27,13 +27,16 @@ SETS = {'ml_dsa_44': dict(K=4, L=4, gamma1=1 << 17, eta=2), 'ml_dsa_65': dict(K=
 
 def butterfly(sess, run, funcs, fn):
     f = funcs[fn]
-    entry, head, opt = LM.loop_anchor(f, 'j')
+    nv = LM.ntt_vars(f)
+    if not all(nv[k] for k in ('j', 'len', 'zeta', 'w_poly')):
+        raise e2.Refuse(f'{fn}: butterfly locals not identified: {nv}')
+    entry, head, opt = LM.loop_anchor(f, nv['j'])
     E = e2.Exec(funcs, mode='int', summaries={'mont_reduce': LM.mont_summary})
     E.mont_calls = []
     j = z3.Int('j'); ln = z3.Int('len'); zeta = z3.Int('zeta'); W = z3.Array('W', z3.IntSort(), z3.IntSort()); B = z3.Int('B')
-    zty = f.locals[f.debug_of['zeta']]
-    init = {opt: e2.Enum(z3.IntVal(1), {1: [e2.Val(j, 'usize')]}), f.debug_of['len']: e2.Val(ln, 'usize'),
-            f.debug_of['zeta']: e2.Val(zeta, zty), f.debug_of['w_poly']: e2.Ref('W'), '@arrays': {'W.0': W}}
+    zty = f.locals[nv['zeta']]
+    init = {opt: e2.Enum(z3.IntVal(1), {1: [e2.Val(j, 'usize')]}), nv['len']: e2.Val(ln, 'usize'),
+            nv['zeta']: e2.Val(zeta, zty), nv['w_poly']: e2.Ref('W'), '@arrays': {'W.0': W}}
     res, obl = E.run(fn, [], start=entry, stop=(head,), init=init)
     run.functions.append(f'MIR {fn}: inner-loop body {entry}..back-edge to {head} (one iteration from an arbitrary state)')
     if len(res) != 1 or len(E.mont_calls) != 1:
